@@ -3,13 +3,17 @@ SHELL := /bin/bash
 export PYTHONPATH := /repo/src:/verif/harness
 export PYTHONHASHSEED := 0
 
-.PHONY: setup gate clean
-setup: gate
+.PHONY: setup gate clean tables-check
+setup: gate tables-check
 	/venv/bin/python translator/gen_all.py /repo coq/gen
 	cd coq && coq_makefile -f _CoqProject -o Makefile.coq
 	cd coq && timeout 3000 $(MAKE) -f Makefile.coq -j16 2>&1 | grep -v -E '^(Axioms:|Closed under|  |[A-Za-z_.]+ *:|\(forall|\{n : nat|    )' ; test $${PIPESTATUS[0]} -eq 0
 	/venv/bin/python -c "import common,sys; [sys.exit(1) for g in common.DRIVER_GROUPS if not common.build_driver(g)[0]]"
 	@echo setup-ok
+
+# the bracket tables are reproducible from their source
+tables-check:
+	python3-vt spec_src/mktables.py --check
 
 # no Admitted / admit / Axiom / Parameter / Conjecture / guard switches anywhere in the development
 gate:
